@@ -226,12 +226,11 @@ def sqlwalk_cases(tier, seed):
 
 def sqlwalk_ref(s1, s2):
     """the lines the history holds, oldest first (ignore_dups: a line re-entered in the SAME session counts once, as its
-    newest occurrence; consecutive duplicates are refused)"""
+    newest occurrence)"""
     ref = []
     for sess, lines in ((1, s1), (2, s2)):
         for e in lines:
-            if ref and ref[-1][1] == e:
-                continue
+            # (same rule as the sqlhist reference: within a session the older occurrence goes; across sessions both stay)
             ref = [(s, x) for (s, x) in ref if not (s == sess and x == e)]
             ref.append((sess, e))
     return [x for (_, x) in ref]
